@@ -177,6 +177,80 @@ theorem C10_rbuf_bounded (conv : UInt32) (ops : List (UInt32 × Op)) (s' : Sock)
   let i := run_inv0 ops _ s' (init_inv0 conv) h
   ⟨i.rb.1.1, i.sb.1.1⟩
 
+/-! ### the send window -/
+
+/-- an ESTABLISHED socket with 4 never-sent bytes queued whose peer advertised a window of 1 byte -/
+def windowWitness : Sock :=
+  { Sock.init 1 with
+    state := .established, current_time := 1000, lastsend := 1000,
+    sbuf := { buf := #[1, 2, 3, 4, 0, 0, 0, 0], data := 4, rpos := 0 },
+    rbuf := Fifo.init 8, rbuf_len := 8, rcv_wnd := 8,
+    slist := [{ seq := 0, len := 4, xmit := 0, flags := 0, unsent := true }],
+    snd_wnd := 1, mss := 1284, cwnd := 2568 }
+
+/-- "after the call more sequence space is in flight than the advertised window + 1 (the FIN's sequence number)" -/
+def newDataBeyondWindow (s : Sock) (r : R Sock) : Bool :=
+  match r with
+  | .ok s' => decide ((s'.snd_nxt - s'.snd_una).toNat > s.snd_wnd.toNat + 1)
+  | .error _ => false
+
+/-- **C10_respects_window is FALSE for the code as it is** (KNOWN finding C10-fin-rst-flush): `shutdown (WR)` on the
+    witness transmits all 4 queued bytes although the peer's window is 1 — `attempt_send (sfFin)` (and `sfRst`) skips
+    the window test and loops until `unsent_slist` is empty.  Checked by kernel evaluation of the model; the same
+    schedule on the real code is corpus/C10/fin_flush_beyond_window.ops. -/
+theorem C10_respects_window_counterexample :
+    newDataBeyondWindow windowWitness (shutdown windowWitness .wr 1000) = true := by decide +kernel
+
+theorem u32_sub_toNat {a b : UInt32} (h : b < a) : (a - b).toNat = a.toNat - b.toNat :=
+  UInt32.toNat_sub_of_le _ _ (UInt32.le_of_lt h)
+
+/-- **C10_respects_window_partial.**  Outside the FIN / RST flush the number of new bytes `attempt_send` is prepared to
+    hand to `transmit` in one round (`nAvailable`; the segment is split to this length right before the call, and
+    `transmit` advances `snd_nxt` by at most the segment length) never exceeds what the window most recently advertised
+    by the peer leaves open: `nAvailable = 0`, or `in flight + nAvailable <= snd_wnd` — for every state.
+    Missing for the full statement: the composition over the whole `attempt_send` loop and `process` (needs a spec of
+    `transmit`'s effect on `snd_nxt`), and it is false for `sfFin` / `sfRst` (see the counterexample above). -/
+theorem C10_respects_window_partial (s : Sock) :
+    nAvailableOf s = 0 ∨ (s.snd_nxt - s.snd_una).toNat + (nAvailableOf s).toNat ≤ s.snd_wnd.toNat := by
+  unfold nAvailableOf
+  simp only
+  generalize hcw : (if (s.dup_acks == 1 || s.dup_acks == 2) = true then s.cwnd + s.dup_acks.toUInt32 * s.mss else s.cwnd) = cw
+  generalize hfl : s.snd_nxt - s.snd_una = fl
+  generalize hav : (if s.sbuf.getBuffered < fl.toNat then (0 : UInt32)
+      else UInt32.ofNat (min (gsub s.sbuf.getBuffered fl.toNat) s.mss.toNat)) = av
+  have hmin : (min s.snd_wnd cw).toNat ≤ s.snd_wnd.toNat := by
+    have : min s.snd_wnd cw = if s.snd_wnd ≤ cw then s.snd_wnd else cw := rfl
+    rw [this]; split
+    · exact Nat.le_refl _
+    · rename_i h; rw [UInt32.le_iff_toNat_le] at h; omega
+  by_cases h1 : fl < min s.snd_wnd cw
+  · simp only [h1, if_true]
+    have hs := u32_sub_toNat h1
+    have h1' := UInt32.lt_iff_toNat_lt.mp h1
+    split
+    · split
+      · left; rfl
+      · right; rw [hs]; omega
+    · rename_i h2
+      right
+      have : av.toNat ≤ (min s.snd_wnd cw - fl).toNat := by
+        have := UInt32.not_lt.mp h2
+        exact UInt32.le_iff_toNat_le.mp this
+      rw [hs] at this; omega
+  · simp only [h1, if_false]
+    split
+    · split
+      · left; rfl
+      · left; rfl
+    · rename_i h2
+      left
+      have := UInt32.not_lt.mp h2
+      have h0 : av.toNat ≤ (0 : UInt32).toNat := UInt32.le_iff_toNat_le.mp this
+      have : av.toNat = 0 := by simpa using h0
+      exact UInt32.toNat_inj.mp (by simpa using this)
+
+example : nAvailableOf windowWitness = 1 ∧ windowWitness.snd_wnd = 1 := by decide +kernel
+
 /-! ### the invariant -/
 
 /-- **C10_inv_preserved_partial.**  The part of the invariant of DESIGN section 5a that is proved for ALL histories of
